@@ -30,10 +30,11 @@ class Int:
 
 
 class Agg:
-    __slots__ = ("fields",)
+    __slots__ = ("fields", "tag")
 
-    def __init__(self, fields):
+    def __init__(self, fields, tag=None):
         self.fields = tuple(fields)
+        self.tag = tag      # closures: path of the closure body
 
     def __repr__(self):
         return "Agg%r" % (self.fields,)
@@ -48,6 +49,17 @@ class Enum:
 
     def __repr__(self):
         return "Enum(%d,%r)" % (self.variant, self.fields)
+
+
+class SymEnum:
+    """field-less enum whose discriminant is symbolic"""
+    __slots__ = ("bits",)
+
+    def __init__(self, bits):
+        self.bits = tuple(bits)
+
+    def __repr__(self):
+        return "SymEnum(%s)" % bv.fmt(self.bits)
 
 
 class Ref:
@@ -130,17 +142,18 @@ def bool_int(b):
 
 # ----------------------------------------------------------------- state
 class Frame:
-    __slots__ = ("body", "fid", "bb", "dest", "ret_bb")
+    __slots__ = ("body", "fid", "bb", "dest", "ret_bb", "transform")
 
-    def __init__(self, body, fid, bb, dest, ret_bb):
+    def __init__(self, body, fid, bb, dest, ret_bb, transform=None):
         self.body = body
         self.fid = fid
         self.bb = bb
         self.dest = dest
         self.ret_bb = ret_bb
+        self.transform = transform   # optional post-processing of the return value (models that call back into the crate)
 
     def copy(self):
-        return Frame(self.body, self.fid, self.bb, self.dest, self.ret_bb)
+        return Frame(self.body, self.fid, self.bb, self.dest, self.ret_bb, self.transform)
 
 
 class State:
@@ -211,6 +224,9 @@ class Interp:
         self.log_arr = False
         self._region_first = False
         self.block_hooks = {}
+        self.typed_unknown = None
+        self.opaque_stores = []
+        self.debug_nonint = None
         self._st = None
         self.merging = True
         self.no_merge_ranks = bv.decode_ranks
@@ -252,7 +268,7 @@ class Interp:
                     v = unwrap_ref(v)   # deref of a Box
                 if isinstance(v, Ref):
                     root, path = v.root, v.path
-                elif isinstance(v, Opaque) and v.tag in ("str", "strvec"):
+                elif isinstance(v, Opaque) and v.tag in ("str", "strvec", "cur", "slice"):
                     # an abstract string stands for the reference to it as well
                     root, path = ("tmpval", st.count("tmpval")), ()
                     st.mem[root] = v
@@ -290,7 +306,9 @@ class Interp:
             return tuple(step.bits[:nb]) + (0,) * max(0, nb - len(step.bits))
         if isinstance(step, int):
             return bv.const(step, nb)
-        raise InterpError("bad index step %r" % (step,))
+        # unanalysable index: an arbitrary element (recorded)
+        self.opaque_stores.append((arr.name, "index:" + repr(step)[:40]))
+        return bv.seq_bv("opaque_index%d" % len(self.opaque_stores), nb)
 
     def arr_block(self, name, width, idx):
         key = (name, idx)
@@ -351,6 +369,9 @@ class Interp:
             return Opaque("deref:" + str(root[1]))
         if root[0] == "const":
             v = self.const_pool[root]
+        elif root[0] == "static" and root not in st.mem and root[1] in self.f.statics:
+            # a static holding a wide reference: its referent is an abstract byte string of known length
+            v = Opaque("str", "\0" * self.f.statics[root[1]]["fat_len"])
         else:
             v = st.mem.get(root, UNINIT)
         self._st = st if self.log_arr else None
@@ -418,7 +439,9 @@ class Interp:
                 cur = Int(self.arr_read(old, idx))
                 val = self._update(cur, path[1:], val)
             if not isinstance(val, Int):
-                raise InterpError("non-integer store into symbolic array %s" % old.name)
+                # an unanalysable value is stored: the element becomes a fresh unknown (recorded)
+                self.opaque_stores.append((old.name, repr(val)[:60]))
+                val = Int(bv.seq_bv("opaque_store%d" % len(self.opaque_stores), old.width))
             return SymArr(old.name, old.n, old.width, old.writes + ((idx, val.bits),))
         if isinstance(step, SymIdx):
             if not isinstance(old, Agg):
@@ -447,7 +470,7 @@ class Interp:
         fs[step] = self._update(fs[step], path[1:], val)
         if isinstance(old, Enum):
             return Enum(old.variant, fs)
-        return Agg(fs)
+        return Agg(fs, old.tag if isinstance(old, Agg) else None)
 
     # ------------------------------------------------------------ operands
     def const_val(self, c):
@@ -471,6 +494,11 @@ class Interp:
             if t["k"] in ("fndef", "closure"):
                 return Opaque("fn", t.get("path"))
             return UNIT
+        if "ref_str" in v:
+            key = ("const", "str", v["ref_str"], None)
+            if key not in self.const_pool:
+                self.const_pool[key] = Opaque("str", v["ref_str"])
+            return Ref(key, ())
         if "ref_int" in v:
             key = ("const", v["ref_int"], v["bits"], v.get("variant"))
             if key not in self.const_pool:
@@ -500,6 +528,8 @@ class Interp:
     def as_bits(self, v, tid):
         """value -> bit tuple (enums with no fields become their discriminant)"""
         if isinstance(v, Int):
+            return v.bits
+        if isinstance(v, SymEnum):
             return v.bits
         if isinstance(v, Enum) and tid is not None:
             t = self.types[tid]
@@ -570,6 +600,8 @@ class Interp:
             if isinstance(v, Enum):
                 d = self.discr_bits(r["p"]["ty"], v.variant)
                 return Int(bv.const(d, w))
+            if isinstance(v, SymEnum):
+                return Int(bv.cast(v.bits, w, False))
             return Opaque("discr-of", v)
         if k == "agg":
             ops = [self.operand(st, fr, o) for o in r["ops"]]
@@ -579,6 +611,8 @@ class Interp:
                 if t.get("adt") == "enum":
                     return Enum(r["variant"], ops)
                 return Agg(ops)
+            if ak == "closure":
+                return Agg(ops, r.get("path"))
             return Agg(ops)
         if k == "repeat":
             v = self.operand(st, fr, r["o"])
@@ -777,11 +811,13 @@ class Interp:
         if ta is Agg and tb is Agg:
             if len(a.fields) != len(b.fields):
                 raise Interp.NoMerge()
-            return Agg([self.merge_val(sel, x, y) for x, y in zip(a.fields, b.fields)])
+            return Agg([self.merge_val(sel, x, y) for x, y in zip(a.fields, b.fields)], a.tag)
         if ta is Enum and tb is Enum:
             if a.variant != b.variant or len(a.fields) != len(b.fields):
                 raise Interp.NoMerge()
             return Enum(a.variant, [self.merge_val(sel, x, y) for x, y in zip(a.fields, b.fields)])
+        if ta is SymEnum and tb is SymEnum:
+            return a if a.bits == b.bits else SymEnum(bv.ite(sel, a.bits, b.bits))
         if ta is SymArr and tb is SymArr:
             if a.name != b.name or len(a.writes) != len(b.writes):
                 raise Interp.NoMerge()
@@ -972,6 +1008,8 @@ class Interp:
                     if s["k"] == "assign":
                         p = s["p"]
                         v = self.rvalue(st, fr, s["r"], p["ty"])
+                        if self.debug_nonint is not None and not isinstance(v, Int) and self.types[p["ty"]]["k"] == "int":
+                            self.debug_nonint.append((fr.body["key"].split("::")[-1], s["ln"], s["r"]["k"], s["r"].get("op"), repr(v)[:50]))
                         root, path = self.loc_of(st, fr, p)
                         self.write_loc(st, root, path, v)
                         self.stats["stmts"] += 1
@@ -986,6 +1024,8 @@ class Interp:
                         self.emit(Outcome("return", st, ret))
                         return []
                     caller = st.frames[-1]
+                    if fr.transform is not None:
+                        ret = fr.transform(st, ret)
                     if fr.dest is not None:
                         self.write_loc(st, fr.dest[0], fr.dest[1], ret)
                     if fr.ret_bb is None:
@@ -1132,12 +1172,22 @@ class Interp:
             model = self.find_pattern_model(cal)
         if model is not None:
             r_ = model(self, st, fr, t, args)
+            if isinstance(r_, tuple) and len(r_) == 4 and r_[0] == "tailcall":
+                # the model continues in a body of the crate; its result is post-processed
+                _, bkey, bargs, transform = r_
+                self.new_frame(st, self.f.bodies[bkey], bargs, dest, target)
+                st.frames[-1].transform = transform
+                return [st]
             if isinstance(r_, Opaque) and r_.tag != "time" and any(is_tainted(a) or (isinstance(a, Ref) and a.root[0] == "f" and is_tainted(st.mem.get(a.root))) for a in args):
                 r_ = Opaque("time")
             return self._dispatch_outcomes(st, r_, dest, target, fr, t)
         # unknown callee: opaque result
         key = cal.get("full") or path or "<indirect>"
         self.unknown_callees[key] = self.unknown_callees.get(key, 0) + 1
+        if self.typed_unknown is not None:
+            r_ = self.typed_unknown(self, st, fr, t, args, key)
+            if r_ is not None:
+                return self._dispatch_outcomes(st, r_, dest, target, fr, t)
         st.tag("unknown-callee")
         rt = self.types[t["dest"]["ty"]]
         if rt["k"] == "never":
